@@ -17,6 +17,7 @@ import (
 	"fmt"
 	"io"
 	"math/rand"
+	"net"
 	"os"
 	"sort"
 	"strings"
@@ -63,6 +64,7 @@ type scenario struct {
 	maxBody    int  // MaxResponseBodySize (0 = unlimited)
 	shortPct   int  // percent of timed calls whose timeout is meant to expire
 	fifo       bool
+	helpers    int // goroutines that use the URL helpers (Get/GetTimeout/GetDeadline/Post) with one re-used dst buffer each
 	cfg        tagsrv.Config
 }
 
@@ -137,22 +139,43 @@ func genScenario(idx int, rnd *rand.Rand) *scenario {
 	return sc
 }
 
+// genHelperScenario: URL helpers with caller buffers (about half of the goroutines) interleaved with
+// Do/DoTimeout/DoDeadline callers that take their Response from the same process-wide pool, against
+// a server that delays body tails, resets, stalls, redirects and refuses.
+func genHelperScenario(idx int, rnd *rand.Rand) *scenario {
+	sc := &scenario{idx: idx, profile: "url-helpers"}
+	sc.cfg.Seed = rnd.Uint64()
+	sc.kind = rnd.Intn(2)
+	sc.g = 8 + rnd.Intn(17)
+	sc.k = 3 + rnd.Intn(6)
+	sc.helpers = sc.g/2 + rnd.Intn(sc.g/4+1)
+	sc.shortPct = 35
+	sc.maxConns = 1 + rnd.Intn(4)
+	sc.waitTmo = []time.Duration{0, 2 * time.Second, 2 * time.Second, 2 * time.Second, 2 * time.Second, 2 * time.Second}[rnd.Intn(6)]
+	sc.fifo = rnd.Intn(3) == 0
+	sc.cfg.Weights = w(int(tagsrv.Normal), 34, int(tagsrv.SlowTail), 22, int(tagsrv.Late), 8, int(tagsrv.Stall), 5, int(tagsrv.NoAnswer), 7,
+		int(tagsrv.Chunked), 8, int(tagsrv.CloseNoHdr), 5, int(tagsrv.Partial), 5, int(tagsrv.Identity), 3, int(tagsrv.Poison), 3)
+	return sc
+}
+
 // call is what one call did and saw.
 type call struct {
-	ID        string
-	API       string
-	Method    string
-	Short     bool
-	Timeout   time.Duration
-	Stream    string // "", full, partial, none, body, release
-	Err       string
-	ReadN     int
-	SawEOF    bool
-	EarlyStop bool // the stream was closed before its end was seen
-	TruncEOF  bool // the stream ended with io.EOF before the whole body of the id was delivered
-	Mismatch  string
-	GotID     string
-	GotBody   string
+	ID         string
+	API        string
+	Method     string
+	Short      bool
+	Timeout    time.Duration
+	Stream     string // "", full, partial, none, body, release
+	Err        string
+	ReadN      int
+	SawEOF     bool
+	EarlyStop  bool   // the stream was closed before its end was seen
+	Variant    string // URL helpers: plain, redirects, redirect-loop, bad-url, refused
+	BufForeign string // URL helpers: a foreign response marker found in the caller's own dst buffer
+	TruncEOF   bool   // the stream ended with io.EOF before the whole body of the id was delivered
+	Mismatch   string
+	GotID      string
+	GotBody    string
 }
 
 func errClass(err error) string {
@@ -330,37 +353,58 @@ func oneCall(sc *scenario, srv *tagsrv.Server, cl doer, host string, id string, 
 
 var hangAfter = 120 * time.Second
 
+// helperReadTimeout bounds the requests that GetTimeout/GetDeadline leave running in the background.
+func helperReadTimeout(sc *scenario) time.Duration {
+	if sc.helpers > 0 {
+		return 2 * time.Second
+	}
+	return 0
+}
+
 var dbgDumps atomic.Int32
 
 type result struct {
-	calls      []*call
-	snap       tagsrv.Snapshot
-	hung       bool
-	idleCloses int
-	shutdownOK bool
+	calls        []*call
+	snap         tagsrv.Snapshot
+	hung         bool
+	idleCloses   int
+	finalForeign []string
+	shutdownOK   bool
 }
 
 func runScenario(sc *scenario, r *mon.Run) *result {
 	srv := tagsrv.New(sc.cfg)
 	hosts := []string{"h0.test"}
 	var cl doer
+	var hcl helperDoer
 	var closeIdle func()
+	dial := srv.Dial
+	if sc.helpers > 0 && sc.kind == kindHost {
+		// a HostClient always dials its Addr: refuse every 9th dial instead of a host name
+		var dials atomic.Int64
+		dial = func(addr string) (net.Conn, error) {
+			if dials.Add(1)%9 == 4 {
+				return srv.Dial("refuse." + addr)
+			}
+			return srv.Dial(addr)
+		}
+	}
 	switch sc.kind {
 	case kindClient:
 		hosts = []string{"h0.test", "h1.test"}
-		c := &fasthttp.Client{Dial: srv.Dial, MaxConnsPerHost: sc.maxConns, MaxConnWaitTimeout: sc.waitTmo,
+		c := &fasthttp.Client{Dial: dial, ReadTimeout: helperReadTimeout(sc), MaxConnsPerHost: sc.maxConns, MaxConnWaitTimeout: sc.waitTmo,
 			StreamResponseBody: sc.stream, MaxResponseBodySize: sc.maxBody, MaxIdleConnDuration: 2 * time.Second}
 		if sc.fifo {
 			c.ConnPoolStrategy = fasthttp.FIFO
 		}
-		cl, closeIdle = c, c.CloseIdleConnections
+		cl, hcl, closeIdle = c, c, c.CloseIdleConnections
 	case kindHost:
-		c := &fasthttp.HostClient{Addr: hosts[0], Dial: srv.Dial, MaxConns: sc.maxConns, MaxConnWaitTimeout: sc.waitTmo,
+		c := &fasthttp.HostClient{Addr: hosts[0], Dial: dial, ReadTimeout: helperReadTimeout(sc), MaxConns: sc.maxConns, MaxConnWaitTimeout: sc.waitTmo,
 			StreamResponseBody: sc.stream, MaxResponseBodySize: sc.maxBody, MaxIdleConnDuration: 2 * time.Second}
 		if sc.fifo {
 			c.ConnPoolStrategy = fasthttp.FIFO
 		}
-		cl, closeIdle = c, c.CloseIdleConnections
+		cl, hcl, closeIdle = c, c, c.CloseIdleConnections
 	case kindPipeline:
 		c := &fasthttp.PipelineClient{Addr: hosts[0], Dial: srv.Dial, MaxConns: sc.maxConns, MaxPendingRequests: sc.maxPending,
 			MaxIdleConnDuration: 50 * time.Millisecond, Logger: nopLogger{}}
@@ -370,7 +414,27 @@ func runScenario(sc *scenario, r *mon.Run) *result {
 	var mu sync.Mutex
 	var wg sync.WaitGroup
 	var completed atomic.Int64
-	for g := 0; g < sc.g; g++ {
+	helperStates := make([]*helperState, sc.helpers)
+	for g := 0; g < sc.helpers; g++ {
+		hs := &helperState{buf: make([]byte, 0, helperBufCap), ownPrefix: fmt.Sprintf("s%d.h%d.", sc.idx, g)}
+		helperStates[g] = hs
+		wg.Add(1)
+		go func(g int) {
+			defer wg.Done()
+			rnd := r.Rand(fmt.Sprintf("helper-%d", sc.idx), g)
+			for k := 0; k < sc.k; k++ {
+				c := helperCall(sc, srv, hcl, hosts, fmt.Sprintf("s%d.h%d.n%d", sc.idx, g, k), rnd, hs)
+				mu.Lock()
+				res.calls = append(res.calls, c)
+				mu.Unlock()
+				completed.Add(1)
+				if rnd.Intn(3) == 0 {
+					time.Sleep(time.Duration(rnd.Intn(2000)) * time.Microsecond) // leave the buffer alone for a while
+				}
+			}
+		}(g)
+	}
+	for g := sc.helpers; g < sc.g; g++ {
 		wg.Add(1)
 		go func(g int) {
 			defer wg.Done()
@@ -421,6 +485,14 @@ wait:
 			break wait
 		}
 	}
+	if !res.hung {
+		// every caller is done: the helpers' buffers have been left alone while the others finished
+		for g, hs := range helperStates {
+			if f := foreignMarker(hs.buf, hs.ownPrefix); f != "" {
+				res.finalForeign = append(res.finalForeign, fmt.Sprintf("buffer of helper goroutine %d (ids %s*) holds the marker of %s", g, hs.ownPrefix, f))
+			}
+		}
+	}
 	closeIdle()
 	res.shutdownOK = srv.Shutdown(20 * time.Second)
 	res.snap = srv.Snapshot()
@@ -467,7 +539,12 @@ func classify(sc *scenario, victim *call, res *result, byID map[string]*call) (k
 		}
 	}
 	fake := strings.HasPrefix(victim.GotID, "fake.") || strings.HasPrefix(victim.GotID, "interim.")
+	helper := strings.HasPrefix(victim.API, "Get") || victim.API == "Post"
 	switch {
+	case victim.Mismatch == "body" && !helper && victim.GotID == victim.ID:
+		return "response-body-overwritten", "status line and header are the call's own but the body bytes are not: the body buffer of the Response was written by somebody else"
+	case victim.Mismatch == "body" && helper && early == "" && tmo == "" && failed == "":
+		return "response-body-overwritten", "the body returned in the caller's buffer is not the call's own although nothing irregular preceded it on its connection: the buffer was written by somebody else"
 	case sc.kind == kindPipeline:
 		return "pipeline-wrong-response", "pipelined responses were paired with the wrong requests"
 	case early != "":
@@ -488,6 +565,7 @@ func TestC04(t *testing.T) {
 	r.Rule("case = one call; scenario = one Client | HostClient(MaxConns 1-4, LIFO/FIFO, MaxConnWaitTimeout 0/20ms/2s) | PipelineClient(MaxConns 1-2, MaxPendingRequests 2-8) " +
 		"against one tag server, 8-32 goroutines x 2-6 calls each, API Do/DoTimeout/DoDeadline (short timeouts 2-19 ms are held by the server until they expired, long ones 5 s), GET/POST, " +
 		"buffered or streamed body (full / partial k bytes then CloseBodyStream / close unread / Body() / ReleaseResponse), 8 behaviour profiles over 14 server behaviours incl. poison bodies; " +
+		"plus url-helper scenarios: about half of the goroutines call Get/GetTimeout/GetDeadline/Post with ONE dst buffer each that they re-use for all their calls (also after refused dials, resets, timeouts, redirect loops, bad URLs; 1-3 redirects), the others use Do*/AcquireResponse on the same process-wide pool; " +
 		"distinct = feature vector (client kind, profile, MaxConns, stream mode, reuse depth bucket, timeouts seen, early closes seen, batches seen); " +
 		"non-trivial = the server's log shows a connection that carried >= 2 request ids (reuse or pipelining really happened)")
 	r.Assume("the tag server (props/c04/tagsrv, no fasthttp code) frames its responses as intended and its in-memory pipe delivers bytes in order")
@@ -509,11 +587,17 @@ func TestC04(t *testing.T) {
 	onlyProfile := os.Getenv("C04_ONLY_PROFILE")
 	otherErrs := map[string]int{}
 	var cmu sync.Mutex
-	mon.Parallel(n, 48, func(i int) {
+	nh := r.N(100, 1000) // URL-helper scenarios: case indices n .. n+nh-1
+	mon.Parallel(n+nh, 48, func(i int) {
 		if !r.Want(i) {
 			return
 		}
-		sc := genScenario(i, r.Rand("scenario", i))
+		var sc *scenario
+		if i < n {
+			sc = genScenario(i, r.Rand("scenario", i))
+		} else {
+			sc = genHelperScenario(i, r.Rand("helper-scenario", i))
+		}
 		if onlyProfile != "" && sc.profile != onlyProfile {
 			return
 		}
@@ -553,7 +637,7 @@ func TestC04(t *testing.T) {
 						if pc.Stream != "" && pc.EarlyStop && cn.Unread[j+1] > 0 {
 							afterEarly++ // the next request went out on a connection that still held unread body bytes
 						}
-						if strings.HasPrefix(pc.Err, "timeout") {
+						if strings.HasPrefix(pc.Err, "timeout") && pc.Variant == "" { // (a timed out GetTimeout/GetDeadline legitimately finishes in the background)
 							afterTmo++
 						}
 					}
@@ -586,6 +670,17 @@ func TestC04(t *testing.T) {
 					earlyN++
 				}
 			}
+			if c.Variant != "" {
+				r.Event("helper_calls", 1)
+				r.Event("helper_"+c.Variant, 1)
+				if c.Err != "" {
+					r.Event("helper_calls_failed", 1)
+				}
+			}
+			if c.BufForeign != "" {
+				r.Violation(i, "caller-buffer-foreign-bytes", fmt.Sprintf("%s %s call %s (%s, %s): the caller's own dst buffer (re-used across its calls) holds the response marker of another request %s",
+					kindNames[sc.kind], c.API, c.ID, c.Variant, sc.profile, c.BufForeign), map[string]any{"scenario": sc.idx, "kind": kindNames[sc.kind], "call": c})
+			}
 			if c.Mismatch != "" {
 				mism++
 				key, why := classify(sc, c, res, byID)
@@ -611,6 +706,11 @@ func TestC04(t *testing.T) {
 					map[string]any{"scenario": sc.idx, "kind": kindNames[sc.kind], "profile": sc.profile, "maxConns": sc.maxConns, "victim": c, "server_conns_of_victim": trace, "why": why})
 			}
 		}
+		for _, f := range res.finalForeign {
+			r.Violation(i, "caller-buffer-foreign-bytes", fmt.Sprintf("%s %s scenario %d: after all callers had finished, the %s", kindNames[sc.kind], sc.profile, sc.idx, f),
+				map[string]any{"scenario": sc.idx, "kind": kindNames[sc.kind], "what": f})
+		}
+		r.Event("helper_buffers_scanned_at_end", sc.helpers)
 		for k, v := range errKinds {
 			r.Event("err_"+k, v)
 		}
@@ -703,5 +803,8 @@ func TestC04(t *testing.T) {
 		r.Require("hook:pc.writer.beforeWrite", n)
 		r.Require("hook:pc.reader.beforeRead", n)
 		r.Require("hook:pc.do.beforeQueue", n)
+		r.Require("helper_calls", nh*12)
+		r.Require("helper_calls_failed", nh*3)
+		r.Require("helper_buffers_scanned_at_end", nh*4)
 	}
 }
